@@ -74,8 +74,8 @@ CHECKS['C16'] = dict(
     note='Model/Env.v is deliberately thin (which constructor is called with which data); Gen/SrcParams.v extracts the constructor expression in _start_processes and the filter_context call sites of the three runners. Trusted/partial: multiprocessing start methods, OS process isolation. Print Assumptions: closed.')
 SCHED_L2 = ' Worker-process level: Model/Exec.v (ProcessExecutor as a state machine with finishing/exiting/killed workers) is compared with the real ProcessExecutor driven over gated forked workers (release or SIGKILL scripted before each wait).'
 CHECKS['C04']['text'] += ' Proved for every sequence of submit/wait/cancel/stop with any completions/exits/kills in between: registered worker processes <= max_workers (C04_worker_limit, start policy extracted).'
-CHECKS['C05']['text'] += ' Proved: after every submit and wait no future is pending while a worker slot is free (C05_rest_workers_full).'
-CHECKS['C11']['text'] += ' Proved: a worker dead at the start of wait() has a finished future (TaskDiedError unless its result was queued) and no slot when it returns (C11_dead_detected, under the executor invariant running_not_done which is checked on the runs).'
+CHECKS['C05']['text'] += ' Proved: after every submit and wait no future is pending while a worker slot is free (C05_rest_workers_full, for the wait() read from the source: queued futures are started on every poll; refuted for a wait() that starts them only after receiving a result, C05_wait_if_received_refuted).'
+CHECKS['C11']['text'] += ' Proved: the executor invariant (running futures pending, queued futures pending and not running, no duplicate in the queue) holds after every sequence of submit/wait/cancel/stop calls and worker events (C11_executor_invariant); hence, with no assumption on the state, a worker dead at the start of wait() has a finished future (TaskDiedError unless its result was queued) and no slot when that wait() returns (C11_dead_detected_always).'
 for _k in ('C04', 'C05', 'C11', 'C10'):
     CHECKS[_k]['note'] = CHECKS[_k]['note'] + SCHED_L2
 CHECKS['C19'] = dict(
